@@ -40,7 +40,7 @@ def _prune(keep, prefix):
 def build(asan=False, repo=REPO, quiet=True):
     """Returns (libdir, info).  Raises RuntimeError (with the log tail) if the build fails."""
     os.makedirs(os.path.join(CACHE, "build"), exist_ok=True)
-    key = ("asan-" if asan else "opt-") + tree_hash(repo)
+    key = ("asan2-" if asan else "opt-") + tree_hash(repo)
     dest = os.path.join(CACHE, "build", key)
     lock = open(os.path.join(CACHE, "build.lock"), "w")
     fcntl.flock(lock, fcntl.LOCK_EX)
@@ -54,7 +54,7 @@ def build(asan=False, repo=REPO, quiet=True):
         env = dict(os.environ)
         env.pop("DEBUG", None)
         if asan:
-            env["CFLAGS"] = "-O1 -g -fsanitize=address -fno-omit-frame-pointer"
+            env["CFLAGS"] = "-O1 -g -DNDEBUG -fsanitize=address -fno-omit-frame-pointer"   # NDEBUG as in the release build
             env["CXXFLAGS"] = env["CFLAGS"]
             env["LDFLAGS"] = "-fsanitize=address"
         cmd = [PY, "setup.py", "-q", "build", "-j16", "--build-lib", os.path.join(dest, "lib"),
@@ -66,7 +66,7 @@ def build(asan=False, repo=REPO, quiet=True):
             shutil.rmtree(dest, ignore_errors=True)
             raise RuntimeError("build of /repo failed:\n" + tail)
         open(os.path.join(dest, "OK"), "w").write("ok\n")
-        _prune(key, "asan-" if asan else "opt-")
+        _prune(key, "asan2-" if asan else "opt-")
         return os.path.join(dest, "lib"), {"tree_hash": key, "seconds": round(time.time() - t0, 1), "cached": False}
     finally:
         fcntl.flock(lock, fcntl.LOCK_UN)
